@@ -625,6 +625,8 @@ class MiniEval:
                 return self._builtin_method(e, recv, f.attr, args, kwargs)
             if type(recv) is dict and f.attr in ('setdefault', 'update', 'pop', 'copy', 'clear'):
                 return self._builtin_method(e, recv, f.attr, args, kwargs)
+            if isinstance(recv, tuple) and hasattr(recv, '_fields') and f.attr in ('_replace', '_asdict'):
+                return self._builtin_method(e, recv, f.attr, args, kwargs)  # a record (namedtuple): a copy with fields replaced
             if isinstance(recv, tuple) and f.attr in ('index', 'count'):
                 return self._builtin_method(e, recv, f.attr, args, kwargs)
             if recv is dict and f.attr == 'fromkeys':
